@@ -428,7 +428,31 @@ func (g *Gen) callExpr(t T, d int) *Node {
 
 // Stmt generates one statement (and updates the scope model).
 func (g *Gen) Stmt(d int) *Node { //nolint:gocyclo,funlen // grammar
-	switch g.R.IntN(29) {
+	switch g.R.IntN(31) {
+	case 29: // arguments and elements are values at the time they are evaluated: a later one changes the variable
+		gv, hf, kf, ff := g.fresh("v"), g.fresh("f"), g.fresh("f"), g.fresh("f")
+		t := []T{TArr, TInt, TStr}[g.R.IntN(3)]
+		h := &Node{K: KFunc, Name: hf, Body: []*Node{Assign(gv, g.Expr(t, 1)), Lit(int64(0))}}
+		k := &Node{K: KFunc, Name: kf, Params: []string{"a", "b"}, Body: []*Node{MkArr(Id("a"), Id("b"))}}
+		var use *Node
+		switch g.R.IntN(3) {
+		case 0:
+			use = Call(Id(kf), Id(gv), Call(Id(hf)))
+		case 1:
+			use = MkArr(Id(gv), Call(Id(hf)), Id(gv))
+		default:
+			use = MkArr(Bi("catch", Id(gv)), Call(Id(hf)))
+		}
+		f := &Node{K: KFunc, Name: ff, Body: []*Node{use}}
+		g.declare(gv, t)
+		return &Node{K: KIf, Kids: []*Node{Lit(true)}, Body: []*Node{Assign(gv, g.Expr(t, 1)), h, k, f, Bi("println", Call(Id(ff)), Id(gv))}}
+	case 30: // an index assignment whose key fails, rest/first of one-character strings
+		mv := g.fresh("v")
+		g.declare(mv, TMap)
+		return &Node{K: KIf, Kids: []*Node{Lit(true)}, Body: []*Node{
+			Assign(mv, &Node{K: KMap}),
+			Bi("println", Bi("catch", &Node{K: KIdxAssign, Name: mv, Kids: []*Node{In("/", g.intLit(), Lit(int64(0))), g.intLit()}}), Id(mv)),
+			Bi("println", Bi("rest", Lit("é")), Bi("rest", Lit("a")), Bi("first", Lit("世")), Bi("rest", Lit("世界")), Bi("rest", Lit("")))}}
 	case 28: // extra arguments of a variadic call are copies: the caller's variable changes after the call, the result does not
 		xv, fv, gv := g.fresh("v"), g.fresh("f"), g.fresh("f")
 		t := T(g.R.IntN(4))
